@@ -166,6 +166,7 @@ func c01Engine(useShipped bool) func(t *rapid.T) {
 		var db *database.Database
 		var cmds []database.Command
 		var cls gen.DBClass
+		withEmb := false
 		if useShipped {
 			var err error
 			db, err = shipped()
@@ -174,9 +175,14 @@ func c01Engine(useShipped bool) func(t *rapid.T) {
 			}
 			cmds, cls = db.Commands, "shipped"
 		} else {
-			o := gen.CmdOpts{Platforms: true, Unicode: rapid.IntRange(0, 3).Draw(t, "unicode-db") == 0}
+			o := gen.CmdOpts{Platforms: true, Unicode: rapid.IntRange(0, 3).Draw(t, "unicode-db") == 0, Sized: true, Long: true, Heavy: true}
 			cmds, cls = gen.DB(t, o, nil)
 			db = gen.Load(t, cmds)
+			if len(cmds) > 0 && len(cmds) <= 60 && rapid.IntRange(0, 2).Draw(t, "embeddings") == 0 {
+				// the optional semantic stage is part of every search once an index is attached
+				database.VerifSetEmbeddingIndex(db, drawEmbeddingIndex(t, cmds))
+				withEmb = true
+			}
 			warmUp(t, db, cmds)
 		}
 		var q string
@@ -313,6 +319,9 @@ func c01Engine(useShipped bool) func(t *rapid.T) {
 		}
 		if len(lists[0]) == limit {
 			labels = append(labels, "at-limit")
+		}
+		if withEmb {
+			labels = append(labels, "embedding-index-attached")
 		}
 		n := len(cmds)
 		if useShipped {
